@@ -2,6 +2,7 @@ package main
 
 import (
 	"fmt"
+	"strings"
 	"sync"
 	"sync/atomic"
 	"time"
@@ -24,6 +25,13 @@ func concReport(c *CaseCtx, res *concResult, class string) {
 	for i, s := range res.seqBad {
 		if i < 3 {
 			c.Violate("sequence-key-order", class, s)
+		}
+	}
+	c.Stat("final_read_transactions", res.finalReads)
+	for i, s := range res.finalBad {
+		if i < 3 {
+			k := strings.Index(s, "|")
+			c.Violate(s[:k], class, s[k+1:])
 		}
 	}
 	for i, s := range res.panics {
@@ -314,7 +322,7 @@ func init() {
 		},
 	})
 	register(&Check{
-		ID: "C17", Level: "exploration",
+		ID: "C17", Level: "exploration", LeakClass: "merge-concurrent",
 		NCases:  func(t string) int { return tier(t, 48, 2000) },
 		Run:     runC17,
 		Workers: 8,
